@@ -13,9 +13,9 @@ META = dict(
     level="exploration",
     technique="round trip TelnetTransport.write/writeSequence -> wire -> Telnet.dataReceived under every single cut / bytewise / random cuts, plus comparison of the wire with the RFC 854 encoding; complete enumeration of short strings over the critical alphabet + Hypothesis",
     level_text="All strings up to length 3 (thorough 4) over {IAC, LF, DO, SB, SE, NUL, 'a'} in three write groupings with every single cut and bytewise delivery are enumerated completely; longer CR-free byte strings rich in 0xFF/LF/command bytes, in random write/writeSequence groupings and random wire cuts, are sampled with Hypothesis.",
-    level_note="Reference encoder (IAC doubled, LF -> CR LF) trusted. The receiving side is exercised on the reference wire as well as on the wire really produced, so a sender defect does not hide the receiver. Only TelnetTransport (not TelnetBootstrapProtocol's own write path) is driven. Application data never contains CR (statement's domain).",
+    level_note="Reference encoder (IAC doubled, LF -> CR LF) trusted. The receiving side is exercised on the reference wire as well as on the wire really produced, so a sender defect does not hide the receiver. Only TelnetTransport (not TelnetBootstrapProtocol's own write path) is driven. Application data never contains CR (statement's domain). Telnet control sequences the same transport sends between the writes (requestNegotiation, do, will) are taken to be inside the statement as far as the application bytes are concerned: those must still arrive exactly, and the only telnet events at the peer must be the ones really sent; the subnegotiation payload itself is not application data and is counted, not asserted.",
     design_ref="§5 C38",
-    rule="case = (list of write / writeSequence operations, cuts of the wire). non-trivial = data holds at least one 0xFF and one LF and a cut separates the two bytes of an escape pair (IAC IAC or CR LF); distinct by (operations, concrete cuts).",
+    rule="case = (list of write / writeSequence operations, optionally interleaved with requestNegotiation / do / will, cuts of the wire). non-trivial = data holds at least one 0xFF and one LF and a cut separates the two bytes of an escape pair (IAC IAC or CR LF); distinct by (operations, concrete cuts).",
 )
 
 IAC = 0xFF
@@ -72,7 +72,7 @@ def _app():
             self.events.append(("command", command, argument))
 
         def unhandledSubnegotiation(self, command, data):
-            self.events.append(("subneg", command, data))
+            self.events.append(("subneg", command, b"".join(data)))
 
         def enableLocal(self, option):
             self.events.append(("enableLocal", option))
@@ -102,9 +102,43 @@ def send(ops):
     for op in ops:
         if op[0] == "w":
             app.transport.write(op[1])
-        else:
+        elif op[0] == "ws":
             app.transport.writeSequence(list(op[1]))
+        elif op[0] == "sb":
+            app.transport.requestNegotiation(op[1], op[2])
+        else:   # "do" / "will": an option request interleaved with the data
+            d = getattr(app.transport, op[0])(op[1])
+            d.addErrback(lambda f: f.trap(telnet.AlreadyNegotiating) and None)
     return b"".join(under.out)
+
+
+def control_plan(ops):
+    """Reference for the telnet control sequences interleaved with the data:
+    -> (reference wire, expected non-data events at the receiver, expected answer).
+    An option already under negotiation is not requested again (AlreadyNegotiating)."""
+    wire = bytearray()
+    events = []
+    answer = bytearray()
+    busy = set()
+    for op in ops:
+        if op[0] == "w":
+            wire += ref_encode(op[1])
+        elif op[0] == "ws":
+            wire += ref_encode(b"".join(op[1]))
+        elif op[0] == "sb":
+            wire += b"\xff\xfa" + op[1] + op[2].replace(b"\xff", b"\xff\xff") + b"\xff\xf0"
+            events.append(("subneg", op[1], op[2]))
+        elif op[1] not in busy:
+            busy.add(op[1])
+            if op[0] == "do":
+                wire += b"\xff\xfd" + op[1]
+                events += [("commandReceived", b"\xfd", op[1]), ("enableLocal", op[1])]
+                answer += b"\xff\xfc" + op[1]      # the application refuses: WONT
+            else:
+                wire += b"\xff\xfb" + op[1]
+                events += [("commandReceived", b"\xfb", op[1]), ("enableRemote", op[1])]
+                answer += b"\xff\xfe" + op[1]      # DONT
+    return bytes(wire), events, bytes(answer)
 
 
 def receive(segs):
@@ -126,7 +160,8 @@ def receive(segs):
 
 
 def flat(ops):
-    return b"".join(op[1] if op[0] == "w" else b"".join(op[1]) for op in ops)
+    """The application bytes, in order (control operations carry none)."""
+    return b"".join(op[1] if op[0] == "w" else b"".join(op[1]) for op in ops if op[0] in ("w", "ws"))
 
 
 def cut_lists(cuts, n):
@@ -140,17 +175,23 @@ def cut_lists(cuts, n):
         yield sorted({int(c) for c in cuts if 0 < int(c) < n})
 
 
-def check_receiver(ctx, case, data, wire, cuts, which):
+def check_receiver(ctx, case, data, wire, cuts, which, control=(), answer=b""):
     segs = harness.split_at(wire, cuts) if wire else []
     ev, back, state = receive(segs)
     small = dict(case, cuts=cuts)
     got = b"".join(e[1] for e in ev if e[0] == "data")
     others = [e for e in ev if e[0] != "data"]
     where = f"{which} wire {wire!r} cuts {cuts}"
-    if others:
-        ctx.violation("data-taken-for-command", small, f"{where}: {others[:4]!r} while carrying {data!r}")
-    if back:
-        ctx.violation("receiver-answered", small, f"{where}: receiver wrote {back!r}")
+    # the only telnet events are those of the control sequences really sent, in order;
+    # the payload of a subnegotiation is not application data and is not compared
+    shape = lambda e: e[:2] if e[0] == "subneg" else e
+    if [shape(e) for e in others] != [shape(e) for e in control]:
+        ctx.violation("data-taken-for-command" if not control else "control-sequences-disturbed", small,
+                      f"{where}: telnet events {others[:6]!r}, sent {list(control)[:6]!r}, while carrying {data!r}")
+    if others != list(control):
+        ctx.count("subnegotiation payload differs (not asserted)")
+    if back != answer:
+        ctx.violation("receiver-answered", small, f"{where}: receiver wrote {back!r}, expected {answer!r}")
     if got != data:
         if len(got) < len(data) and got == bytes(b for b in data if b != 0xFF)[:len(got)] and 0xFF in data:
             ctx.violation("iac-byte-lost", small, f"{where}: application got {got!r}, sent {data!r}")
@@ -165,7 +206,7 @@ def run_case(ctx, case):
     if b"\r" in data:
         ctx.count("skipped: CR in data")
         return
-    ref = ref_encode(data)
+    ref, control, answer = control_plan(ops)
     nseg = 0
     pairs = [i + 1 for i in range(len(ref) - 1)
              if ref[i:i + 2] in (b"\xff\xff", b"\r\n")]
@@ -173,7 +214,7 @@ def run_case(ctx, case):
     # receiver half on the reference wire (always meaningful)
     for cuts in cut_lists(case["cuts"], len(ref)):
         nseg += 1
-        check_receiver(ctx, case, data, ref, cuts, "reference")
+        check_receiver(ctx, case, data, ref, cuts, "reference", control, answer)
         if rich and any(c in pairs for c in cuts):
             ctx.nontrivial((case["ops"], tuple(cuts)))
             ctx.count("nontrivial segmentations")
@@ -182,8 +223,20 @@ def run_case(ctx, case):
     if nseg > 1:
         ctx.case(nseg - 1)
     ctx.count("segmentations", nseg)
-    ctx.count("ops: write only" if all(o[0] == "w" for o in ops) else
-              "ops: writeSequence only" if all(o[0] == "ws" for o in ops) else "ops: mixed")
+    dataops = [o for o in ops if o[0] in ("w", "ws")]
+    ctx.count("ops: write only" if all(o[0] == "w" for o in dataops) else
+              "ops: writeSequence only" if all(o[0] == "ws" for o in dataops) else "ops: mixed")
+    if control:
+        ctx.count("control sequences interleaved with data")
+        if any(o[0] == "sb" for o in ops):
+            ctx.count("interleaved subnegotiation")
+        if any(o[0] == "sb" and b"\xff" in o[2] and b"\xf0" in o[2][o[2].index(b"\xff"):] for o in ops):
+            ctx.count("interleaved subnegotiation whose payload has 0xFF and later 0xF0 (SE)")
+        if any(o[0] in ("do", "will") for o in ops):
+            ctx.count("interleaved option request")
+        i = [k for k, o in enumerate(ops) if o[0] not in ("w", "ws")]
+        if any(o[0] in ("w", "ws") and flat([o]) for o in ops[i[-1] + 1:]):
+            ctx.count("application data after a control sequence")
     if 0xFF in data:
         ctx.count("data has 0xFF")
     if 0x0A in data:
@@ -193,9 +246,16 @@ def run_case(ctx, case):
     if rich and len(ctx.samples) < 5 and len(data) % 4 == 1:
         ctx.sample(case)
     if wire != ref:
-        raw_ws = b"".join(ref_encode(op[1]) if op[0] == "w" else b"".join(op[1]) for op in ops)
         small = dict(case, cuts=[])
-        if wire == raw_ws:
+        if control:
+            # how the control sequences themselves are encoded is not the subject; what the
+            # statement covers is that the application bytes still arrive: end to end on the real wire
+            ctx.count("wire with control sequences differs from the reference (checked end to end instead)")
+            for cuts in cut_lists(case["cuts"], len(wire)):
+                check_receiver(ctx, case, data, wire, cuts, "real", control, answer)
+            return
+        if wire == b"".join(
+                ref_encode(op[1]) if op[0] == "w" else b"".join(op[1]) for op in ops):
             ctx.violation("writesequence-not-escaped", small,
                           f"writeSequence put {wire!r} on the wire for data {data!r}; escaped form is {ref!r}")
         ctx.violation("wire-encoding", small, f"wire {wire!r} for data {data!r}; expected {ref!r}")
@@ -212,13 +272,39 @@ def _bytes_rich(max_size):
 
 _B12 = _bytes_rich(12)
 _WS = st.lists(_bytes_rich(6), max_size=4)
-_OP = st.one_of(st.tuples(st.just("w"), _B12).map(list), st.tuples(st.just("ws"), _WS).map(list))
+_ABOUT = st.sampled_from([b"\x1f", b"\x18", b"\x01", b"\x22"])
+_PAYLOAD = st.lists(st.sampled_from([0xFF, 0xF0, 0xFA, 0x00, 0x0D, 0x0A, 0x61, 0xFF, 0xF0]), max_size=6).map(bytes)
+_OPT = st.sampled_from([b"\x01", b"\x03", b"\x18", b"\x0a", b"\xf0"])
+_CTL = st.one_of(st.tuples(st.just("sb"), _ABOUT, _PAYLOAD).map(list),
+                 st.tuples(st.just("sb"), _ABOUT, _PAYLOAD).map(list),
+                 st.tuples(st.sampled_from(["do", "will"]), _OPT).map(list))
+_DATAOP = st.one_of(st.tuples(st.just("w"), _B12).map(list), st.tuples(st.just("ws"), _WS).map(list))
+_OP = st.one_of(_DATAOP, _DATAOP, _CTL)
 _CUTS = st.one_of(st.just("all1"), st.just("bytewise"), st.lists(st.integers(1, 120), max_size=8))
 _CASES = st.fixed_dictionaries(dict(ops=st.lists(_OP, min_size=1, max_size=5), cuts=_CUTS))
 
 
 def cases():
     return _CASES
+
+
+SB_ALPHA = [0xFF, 0xF0, 0x00]
+
+
+def control_scope(maxpayload):
+    """data | subnegotiation with every payload up to maxpayload over {IAC, SE, NUL} | data,
+    and the same with an option request, every single cut."""
+    datas = [bytes(t) for n in range(0, 3) for t in itertools.product([0xFF, 0x0A, 0xF0, 0x61], repeat=n)]
+    payloads = [bytes(t) for n in range(0, maxpayload + 1) for t in itertools.product(SB_ALPHA, repeat=n)]
+    for pl in payloads:
+        for d in datas:
+            for k in range(len(d) + 1):
+                yield dict(ops=[["w", d[:k]], ["sb", b"\x1f", pl], ["w", d[k:]]], cuts="all1")
+    for d in datas:
+        for k in range(len(d) + 1):
+            for verb in ("do", "will"):
+                for opt in (b"\x01", b"\xf0"):
+                    yield dict(ops=[["ws", [d[:k]]], [verb, opt], ["w", d[k:]]], cuts="all1")
 
 
 def small_scope(maxlen):
@@ -237,6 +323,7 @@ def small_scope(maxlen):
 def _scope_shard(sub, arg):
     maxlen, i, nsh = arg
     enumerate_run(sub, itertools.islice(small_scope(maxlen), i, None, nsh), run_case)
+    enumerate_run(sub, itertools.islice(control_scope(4), i, None, nsh), run_case)
 
 
 def _hyp_shard(sub, i):
@@ -245,11 +332,15 @@ def _hyp_shard(sub, i):
 
 def run(ctx):
     maxlen = ctx.pick(3, 4)
+    ctx.extra["control_scope"] = ("data(<=2 over IAC,LF,SE,'a') split at every point around a subnegotiation with every payload of "
+                                  f"length <= {ctx.pick(3, 4)} over IAC,SE,NUL, or around a DO/WILL request; every single cut + bytewise")
     ctx.extra["small_scope"] = f"all strings of length <= {maxlen} over {[hex(a) for a in ALPHA]}, 3 groupings, all single cuts + bytewise"
     if ctx.thorough:
         ctx.shards(_scope_shard, [(maxlen, i, 16) for i in range(16)])
     else:
         enumerate_run(ctx, small_scope(maxlen), run_case)
+        if not ctx.has_violation():
+            enumerate_run(ctx, control_scope(3), run_case)
     if ctx.has_violation():
         return
     if ctx.thorough:
